@@ -156,7 +156,14 @@ def tlc_must_pass(r, what):
 
 
 def tail(s, n=40):
-    return "\n".join(s.splitlines()[-n:])
+    lines = s.splitlines()
+    # for TLC output: show the first error block (message + a few lines) before the tail
+    head = []
+    for i, ln in enumerate(lines):
+        if ln.startswith("Error:") and "The behavior up to this point" not in ln and "nested" not in ln:
+            head = lines[i:i + 12] + ["..."]
+            break
+    return "\n".join(head + lines[-n:])
 
 
 def printed_json(r, marker=None):
